@@ -94,6 +94,12 @@ func (f *FS) journal(op, path, path2 string, ino int) {
 	}
 }
 
+// JournalNote records a metadata change made by a shim (chtimes, truncate).
+func (f *FS) JournalNote(op, path string, ino int) {
+	_, _, _, abs, _ := f.walk(f.Cwd, path)
+	f.journal(op, abs, "", ino)
+}
+
 // walk resolves path (relative to cwd) component by component. It returns
 // the parent directory, the final name, the node (nil if absent) and the
 // absolute cleaned path.
